@@ -64,6 +64,12 @@ def gen_case(seed, tier, index=0):
         else:
             execs = [{'dur': dur, 'exit': 'Success', 'launch_fail': 'joblaunch'}] * 8
         plan[inst] = {'execs': execs, 'kind': kind}
+    if rr.random() < 0.3:
+        # a component of a later stage that starts early and exits unrecoverably while the loop is iterating: the
+        # controller then stops everything (kill_all_components)
+        prog['bomb'] = {'after': rr.random() < 0.5}
+        plan['Bomb'] = {'execs': [{'dur': rr.choice([0.5, 2.0, 4.0, 7.0, 12.0, 20.0]), 'exit': rr.choice(UNRECOVERABLE)}],
+                        'kind': 'future-stage-component-fails'}
     knobs = common.knobs_from(rr, tier)
     knobs['launch_delay'] = rr.choice([0.0, 0.0, 5.0])
     return {'prog': prog, 'knobs': knobs, 'plan': plan, 'dur': rr.choice([0.3, 1.0, 3.0]), 'sched_seed': rr.getrandbits(48),
@@ -94,7 +100,7 @@ def shrink_candidates(case):
         lp = p if which == 'first' else p.get('second')
         if not lp:
             continue
-        used = max([int(n.split('#')[0]) for n in case['plan']] or [0])
+        used = max([int(n.split('#')[0]) for n in case['plan'] if '#' in n] or [0])
         for k in (0, 1, lp['k'] - 1):
             if used <= k < lp['k']:
                 c = copy.deepcopy(case)
